@@ -90,6 +90,10 @@ def exact_float(run, tier, nprng):
             for coeff in (0.97, 0.5, -0.3, 1.0 / 3.0) if n <= 1000 else (0.97,):
                 if np.issubdtype(dt, np.integer):
                     x = nprng.randint(-3000, 3000, size=n).astype(dt)
+                    if n >= 6 and np.dtype(dt).kind == "i":
+                        # (the extreme values of the type at places where the result is exactly that value again: first
+                        # sample, and right after a zero)
+                        x[0], x[2], x[3], x[4], x[5] = np.iinfo(dt).min, 0, np.iinfo(dt).min, 0, np.iinfo(dt).max
                 else:
                     x = (nprng.randn(n) * 100).astype(dt)
                 x64 = x.astype(np.float64)
